@@ -349,6 +349,28 @@ def decode_lenient(st, t, errors):
     return d
 
 
+# --------------------------------------------------------------------------------------------- rjust / ljust
+
+
+def text_just(t, width, fill=None, right=True):
+    """t.rjust(width[, fill]) / t.ljust(width[, fill]) (CPython: t itself when width <= len(t), else t padded on the
+    left / right with width - len(t) copies of the one-element `fill`, default a space): the derived text
+    fill * max(width - len(t), 0) + t   (resp. t + fill * ...).  `fill` must be a one-element constant of t's kind
+    (CPython raises TypeError otherwise).  Dual use (plain ints give plain elements): see xcheck_textops."""
+    from .text import SRepeat
+
+    t = as_text(t)
+    f = as_text(fill if fill is not None else (" " if t.kind == "str" else b" "))
+    if f is None or f.kind != t.kind or not (isinstance(f.length, int) and f.length == 1):
+        if f is not None and isinstance(f.length, int):
+            _raise(TypeError, "The fill character must be exactly one character long")
+        raise Unsupported("rjust / ljust with a fill that is not a one-element constant")
+    pad = SRepeat(f, width - t.length)
+    if isinstance(t.length, int) and t.length == 0:
+        return pad
+    return SConcat(pad, t) if right else SConcat(t, pad)
+
+
 # --------------------------------------------------------------------------------------------- dispatch from call_method
 
 
@@ -362,6 +384,8 @@ def text_method(ip, st, recv, name, args, kwargs):
         return text_lstrip(st, recv, args[0])
     if name == "partition" and len(args) == 1 and not kwargs:
         return text_partition(st, recv, args[0])
+    if name in ("rjust", "ljust") and 1 <= len(args) <= 2 and not kwargs and V.is_num(args[0]) and not isinstance(args[0], V.SReal):
+        return text_just(recv, args[0], args[1] if len(args) > 1 else None, right=name == "rjust")
     if name == "decode" and recv.kind == "bytes":
         codec = args[0] if args else kwargs.get("encoding", "utf-8")
         errors = args[1] if len(args) > 1 else kwargs.get("errors", "strict")
@@ -453,6 +477,20 @@ def xcheck_textops():
                 bad.append(("partition", s))
         elif (h, m, tl) != (s, "", ""):
             bad.append(("partition", s))
+    # rjust / ljust: the derived text has CPython's length and elements
+    for s in (b"", b"a", b"ab\xe4", "", "x", "xy中"):
+        for width in range(-2, 6):
+            for fill in (None, b"0" if isinstance(s, bytes) else "0"):
+                for right in (True, False):
+                    n += 1
+                    m = text_just(s, width, fill, right)
+                    py = (s.rjust if right else s.ljust)(*([width] if fill is None else [width, fill]))
+                    if isinstance(s, str):
+                        # str elements are the individuals chr_of(ord(c)) (symbolic): lengths only; elements in the bytes case
+                        if m.length != len(py):
+                            bad.append(("just-len", s, width, fill, right))
+                    elif m.length != len(py) or [m.get(j) for j in range(m.length)] != list(py):
+                        bad.append(("just", s, width, fill, right, py))
     # bytes([..]) / bytearray
     for x in (-1, 0, 65, 255, 256):
         n += 1
